@@ -340,7 +340,7 @@ class Namespace:
         if not value:
             return
         context = self._get_context()
-        tags = context["tags"]
+        tags = context.setdefault("tags", [])
         if value and len(tags) and not tags[-1]["term"]:
             tags[-1]["term"] = value
         else:
